@@ -11,7 +11,7 @@ F = 'core/_files.py'
 
 
 class BaseSliceAssumed(Contract):
-    """ASSUMED summary of PseudoNetCDFFile.sliceDimensions for this proof (checked by the bounded harnesses of C02/C11):
+    """(no longer used: the base function is executed in line since the engine covers it)  ASSUMED summary of PseudoNetCDFFile.sliceDimensions for this proof (checked by the bounded harnesses of C02/C11):
     the result is a new IOAPI file object carrying the receiver's global attributes and the sliced dimensions"""
     prop = 'C11'
     target = F + '::PseudoNetCDFFile.sliceDimensions'
@@ -49,7 +49,7 @@ class SliceOrigin(Contract):
     other origin are unchanged -- for windows given as integers (positive or negative) or unit-stride slices, any grid size"""
     prop = 'C11'
     target = IO + '::ioapi_base.sliceDimensions'
-    uses = [BaseSliceAssumed(), UpdateMetaAssumed()]
+    uses = [UpdateMetaAssumed()]
     max_paths = 100
 
     def __init__(self, dims, kind):
@@ -113,7 +113,7 @@ class SliceLevels(Contract):
     """ioapi sliceDimensions(LAY=window): the level edges of the result are the matching sub-range (one more edge than layers)"""
     prop = 'C11'
     target = IO + '::ioapi_base.sliceDimensions'
-    uses = [BaseSliceAssumed(), UpdateMetaAssumed()]
+    uses = [UpdateMetaAssumed()]
     max_paths = 100
 
     def __init__(self, kind):
@@ -271,10 +271,10 @@ def bounded_replay(p):
 
 META = dict(
     level='other',
-    technique='origin and level-edge arithmetic of ioapi sliceDimensions proved by pyvc (modular: base slicing and updatemeta as assumed summaries); time referencing by bounded run-time contract',
+    technique='origin and level-edge arithmetic of ioapi sliceDimensions proved by pyvc with the base sliceDimensions executed in line (updatemeta as assumed summary, its count clauses are C10 obligations); time referencing by bounded run-time contract',
     text='Proved for grids of any size and windows given as integers (positive or negative) or unit-stride slices: XORIG/YORIG move by (first retained index) x cell size, cell sizes and the '
          'source are unchanged, VGLVLS of the result is the matching sub-range with one more edge than layers. Bounded: decoded times / SDATE / STIME / TSTEP of time windows (strftime-based), '
          'retained data, metadata coherence, pairs of dimensions.',
-    note='PseudoNetCDFFile.sliceDimensions and updatemeta are ASSUMED summaries in the proof (the former is checked by the bounded harnesses of C02/C11); floats are reals (A-REAL).',
+    note='updatemeta is an ASSUMED summary in the proof (does not touch XORIG/YORIG/XCELL/YCELL/VGLVLS; its count clauses are proved under C10); the base sliceDimensions is no longer assumed: it is executed in line (and proved on its own under C02); floats are reals (A-REAL).',
     assumptions=[sym.A_REAL],
     explanation='mixed: proof obligations for origin/level arithmetic + bounded exploration for time referencing')
